@@ -451,15 +451,30 @@ inline void oracle_C19(An &a, vf::Stats &st) {
   st.add("cases");
   a.compile();
   if (!a.cr.generated_correctly) { st.add("not_compiled"); return; }
-  Theo::VM vm(a.cr.code); long long n = 0, calls = 0; size_t maxact = 0, maxdata = 0; uint64_t h = 0;
-  while (n < 30000) {
-    std::string e = frames_exact(vm);
-    if (!e.empty()) { st.violation(a.key(), "after " + std::to_string(n) + " instructions (ip " + std::to_string(vm.instruction_pointer) + "): " + e, a.cj); return; }
-    if (vm.isDone()) break;
-    if (vm.code.code[vm.instruction_pointer].op == OpCode::EXEC) calls++;
-    vm.executeSingle(); n++; maxact = std::max(maxact, vm.stack.size()); maxdata = std::max(maxdata, vm.data.size());
-    h = vf::mix(h ^ (vm.data.size() * 31 + vm.stack.size()));
+  long long n = 0, calls = 0, n0 = 0, calls0 = 0; size_t maxact = 0, maxdata = 0; uint64_t h = 0, h0 = 0;
+  // pass 0: free run; pass 1: a debugger front end inspects every live activation (and the break state) at every
+  // instruction boundary - inspection is read-only, so the frames must stay exact and the run must be the same
+  std::vector<uint64_t> trace;  // hash of (data words, frame count) after every instruction of the free run
+  for (int pass = 0; pass < 2; pass++) {
+    Theo::VM vm(a.cr.code); n = 0; calls = 0; h = 0;
+    long long work = 0;  // the getter is quadratic in the frame width: the inspected pass covers the prefix of the run that 4M map insertions pay for
+    while (n < 30000) {
+      if (pass == 1) { for (auto &act : vm.getActivations()) { work += (long long)act.seg_size * (long long)vm.code.stack_maps[act.debug_info].map.size() + 1; act.getActivationVariables(); } vm.getCurrentBreak(); vm.getEnabledBreakPoints(); }
+      std::string e = frames_exact(vm);
+      if (!e.empty()) { st.violation(a.key(), std::string(pass ? "with every activation inspected at every step, " : "") + "after " + std::to_string(n) + " instructions (ip " + std::to_string(vm.instruction_pointer) + "): " + e, a.cj); return; }
+      if (vm.isDone() || (pass == 1 && work > 4000000)) break;
+      if (vm.code.code[vm.instruction_pointer].op == OpCode::EXEC) calls++;
+      vm.executeSingle(); n++; maxact = std::max(maxact, vm.stack.size()); maxdata = std::max(maxdata, vm.data.size());
+      h = vf::mix(h ^ (vm.data.size() * 31 + vm.stack.size())); for (int w : vm.data) h = vf::mix(h ^ (uint64_t)(unsigned)w);
+      if (pass == 0) trace.push_back(h);
+    }
+    if (pass == 0) { n0 = n; calls0 = calls; h0 = h; }
+    else {
+      if (n > 0 && ((size_t)n > trace.size() || trace[n - 1] != h)) { st.violation(a.key(), "the run in which every activation is inspected at every step differs from the free run after " + std::to_string(n) + " instructions (data words / frame sizes)", a.cj); return; }
+      st.add("inspected_states", n + 1); if (n == n0) st.add("programs_inspected_to_the_end");
+    }
   }
+  n = n0; calls = calls0; h = h0;
   st.add("states", n + 1); st.add("transitions", n); st.add("programs");
   if (calls) { st.add("programs_with_calls"); st.nontrivial.insert(vf::fnv(a.cj)); st.max("calls", calls); }
   st.max("activations", (long long)maxact); st.max("data_words", (long long)maxdata);
